@@ -142,7 +142,8 @@ PROPS["C03"] = dict(
           "+ 0-2 structural mutations, and random JSON. non-trivial = the reference evaluation passed through a position with >=2 alternatives, an allOf-inherited key, an additionalProperties decision, "
           "a key-shortcut match or a type-rule reference; distinct by (spec, document)"),
     assumptions=["reference semantics is right", "graphs rejected by Check are outside the domain (counted under labels)"],
-    jobs=[job("composition", "^TestComposition$", (4, 16), (8000, 75000), (600, 3000))],
+    jobs=[job("composition", "^TestComposition$", (4, 16), (8000, 75000), (600, 3000)),
+          job("allOf-order", "^TestAllOfOrder$", (1, 4), (1500, 20000), (600, 3000))],
 )
 PROPS["C04"] = dict(
     pkg="c04", level="exploration",
@@ -157,7 +158,8 @@ PROPS["C04"] = dict(
     assumptions=["a corrupted value violates the targeted rule (constructed from the rule parameter with exact arithmetic / regexp)"],
     jobs=[job("check-vs-example", "^TestCheckVsExample$", (4, 16), (8000, 300000), (600, 3000)),
           job("type-rule-reference", "^TestTypeRuleReference$", (2, 8), (6000, 300000), (600, 3000)),
-          job("shared-type-object", "^TestSharedTypeObject$", (2, 8), (4000, 300000), (600, 3000))],
+          job("shared-type-object", "^TestSharedTypeObject$", (2, 8), (4000, 300000), (600, 3000)),
+          job("container-example-under-or", "^TestContainerExampleUnderOr$", (1, 4), (2000, 40000), (600, 3000))],
 )
 PROPS["C08"] = dict(
     pkg="c08", level="exploration", exhaustive_claim=False,
@@ -170,7 +172,8 @@ PROPS["C08"] = dict(
           "empty array, string, integer, float, boolean, null, type shortcut. non-trivial = >=2 rules (>=2 orders executed) or a single rule judged by the table; distinct by (kind, position, rule set)"),
     assumptions=["example values satisfy the value rules except where an atom is deliberately disordered, so a rejection is about applicability/consistency"],
     jobs=[job("exhaustive", "^TestExhaustive", (4, 16), (1, 1), (900, 3000)),
-          job("random", "^TestRandomLargerSets$", (4, 16), (1200, 50000), (900, 3000))],
+          job("random", "^TestRandomLargerSets$", (4, 16), (1200, 50000), (900, 3000)),
+          job("late-type", "^TestLateAddType$", (1, 2), (600, 6000), (600, 3000))],
 )
 PROPS["C09"] = dict(
     pkg="c09", level="exploration",
